@@ -232,6 +232,7 @@ func TestC03Stress(t *testing.T) {
 		cycles := rapid.IntRange(1, 3).Draw(rt, "cycles")
 		yield := rapid.SampledFrom([]int{0, 100, 400}).Draw(rt, "yield")
 		delay := rapid.IntRange(0, 300).Draw(rt, "shutdownDelayMicros")
+		nshut := rapid.SampledFrom([]int{1, 1, 2, 4}).Draw(rt, "shutdownCalls")
 		s := res.NewService("svc")
 		s.SetWorkerCount(workers)
 		s.SetLogger(nil)
@@ -313,9 +314,26 @@ func TestC03Stress(t *testing.T) {
 			})
 			time.Sleep(time.Duration(delay) * time.Microsecond)
 			done := make(chan struct{})
+			// 1-4 Shutdown calls at the same instant: one of them shuts the service down, the
+			// others return at once (not started); none may panic or close anything twice
+			var sdwg sync.WaitGroup
+			startShut := make(chan struct{})
+			for j := 0; j < nshut; j++ {
+				sdwg.Add(1)
+				go func() {
+					defer sdwg.Done()
+					defer guard("Shutdown")
+					<-startShut
+					_ = s.Shutdown()
+				}()
+			}
+			close(startShut)
 			go func() {
-				defer guard("Shutdown")
-				_ = s.Shutdown()
+				sdwg.Wait()
+				// a losing call returns early; wait until the service is really stopped
+				for i := 0; i < 300000 && s.Conn() != nil; i++ {
+					time.Sleep(100 * time.Microsecond)
+				}
 				stopped.Store(true)
 				if n := atomic.LoadInt64(&running); n != 0 {
 					panics.CompareAndSwap(nil, fmt.Sprintf("Shutdown returned while %d callbacks were still executing", n))
